@@ -247,7 +247,8 @@ FAMILIES = [
            quick=dict(shapes=['(X&Y)|Z', '(X|Y)&Z', '(X&Y)&(Z|X)'], xk=[F1], yk=[TR],
                       zk=[F2], nchanges=2),
            thorough=dict(shapes=['(X&Y)|Z', '(X|Y)&Z', 'X&Y&Z', '(X&Y)&(Z|X)'], xk=[F1, TR],
-                         yk=[TR, F2], zk=[F2, AFTER, BEFORE, DONE], nchanges=3),
+                         yk=[TR, F2], zk=[F2, AFTER, DONE], nchanges=2, _max_paths=900000,
+                         _max_wall=1200),
            reach=['(X&Y)|Z', '(X|Y)&Z', '(X&Y)&(Z|X)', 'resumed'],
            bounds='depth-2 trees'),
     Family('driver_fault', fam_cond,
@@ -259,7 +260,7 @@ FAMILIES = [
            bounds='the activity that changes the atoms is cancelled / interrupted at (c,p)'),
     Family('two_waiters', fam_cond,
            quick=dict(shapes=['X&Y'], xk=[TR], yk=[F2], zk=[F2], nchanges=2, nwaiters=2),
-           thorough=dict(shapes=BASIC, xk=[F1, TR], yk=[F2, AFTER], zk=[F2], nchanges=3,
-                         nwaiters=2),
+           thorough=dict(shapes=['X', 'X&Y', 'X|Y'], xk=[F1, TR], yk=[F2, AFTER], zk=[F2],
+                         nchanges=2, nwaiters=2, _max_wall=1200),
            reach=['resumed'], bounds='two concurrent waiters on the same condition'),
 ]
